@@ -197,7 +197,14 @@ def run(chk, tier):
                 want = val
         else:
             row, want = ('?', None), None
-        rows[row] = (val == want, val, want)
+        if row[0] == 'prev' and decided(o.st.decisions, 'Eq(expected.0, actual.0)') is not None:
+            # with a previous responding hop the status is a function of (previous, actual) alone: the as-sent checksum must not be consulted, or every
+            # hop behind a rewriting device differs from it and is flagged again
+            want = (want or '') + ' — decided from the previous hop alone, not from the as-sent checksum as well'
+        # every trace of a row must give the required answer (a later trace of the same row must not hide an earlier wrong one)
+        prev_ = rows.get(row)
+        if prev_ is None or prev_[0]:
+            rows[row] = (val == want, val, want)
     for row in (('prev', 1), ('prev', 0), ('first', 1), ('first', 0)):
         r_ = rows.get(row)
         inst = 'nat_status[%s,%s]' % (row[0], 'equal' if row[1] else 'differs')
